@@ -72,6 +72,10 @@ DOCS_A = [
     R + ' xmlns:xs="http://www.w3.org/2001/XMLSchema"><t:fx xsi:type="xs:decimal">1.00</t:fx></t:root>',
     R + ' xmlns:xs="http://www.w3.org/2001/XMLSchema"><t:fx xsi:type="xs:string">1.00</t:fx><t:fx xsi:type="xs:double">1</t:fx></t:root>',
     R + ' xmlns:xs="http://www.w3.org/2001/XMLSchema"><t:fx xsi:type="xs:string">1.0</t:fx><t:fx>1.0</t:fx></t:root>',
+    # the same LEXICAL xsi:type value in a scope where its prefix is bound to another namespace: another (unknown) type
+    R + '><x:item xmlns:x="urn:t" xmlns:t="urn:zzz" k="2" xsi:type="t:E"/></t:root>',
+    R + '><t:item k="1" xsi:type="t:E" k2="a"/><x:item xmlns:x="urn:t" xmlns:t="urn:zzz" k="2" xsi:type="t:E"/></t:root>',
+    '<root xmlns="urn:t" %s><item k="1" xsi:type="E" k2="a"/><h k="3" xsi:type="E"/></root>' % XSI,
 ]
 SCHEMA_B = ('<xs:schema xmlns:xs="%s"><xs:complexType name="T0"><xs:sequence><xs:element name="a" type="xs:int" '
             'minOccurs="0" maxOccurs="3"/></xs:sequence><xs:attribute name="k" type="xs:string"/><xs:attribute name="n" '
@@ -110,7 +114,7 @@ SCHEMA_C = ('<xs:schema xmlns:xs="%s"><xs:complexType name="Base"><xs:sequence><
             '<xs:keyref name="RA" refer="KA"><xs:selector xpath=".//sub"/><xs:field xpath="@to"/></xs:keyref></xs:element>'
             '<xs:element name="listB"><xs:complexType><xs:sequence><xs:element ref="item" maxOccurs="unbounded"/>'
             '</xs:sequence></xs:complexType><xs:key name="KB"><xs:selector xpath=".//sub"/><xs:field xpath="@id"/></xs:key>'
-            '</xs:element></xs:choice></xs:complexType></xs:element></xs:schema>' % XS)
+            '</xs:element><xs:element ref="item"/></xs:choice></xs:complexType></xs:element></xs:schema>' % XS)
 _IT = '<item xsi:type="Derived">%s</item>'
 DOCS_C = [
     '<root %s><listA>%s</listA></root>' % (XSI, _IT % '<sub id="1"/><sub id="1"/>'),
@@ -120,6 +124,11 @@ DOCS_C = [
     '<root %s><listA>%s</listA></root>' % (XSI, _IT % '<sub id="1" to="9"/>'),
     '<root %s><listB>%s</listB><listA>%s</listA></root>' % (XSI, _IT % '<sub id="3"/><sub id="3"/>', _IT % '<sub id="4"/><sub id="4"/>'),
     '<root %s><listA><item><n>x</n></item></listA><listB><item/></listB></root>' % XSI,
+    # the substituted type met OUTSIDE the key scopes (their counters exist but are closed), and before any scope
+    '<root %s><listA><item><n>x</n></item></listA>%s</root>' % (XSI, _IT % '<sub id="1"/><sub id="1"/>'),
+    '<root %s>%s<listB><item/></listB></root>' % (XSI, _IT % '<sub id="5"/>'),
+    # the same lexical xsi:type under another default namespace: not the same type any more
+    '<root %s><listA><item xmlns="urn:other" xsi:type="Derived"/></listA></root>' % XSI,
 ]
 
 
